@@ -7,6 +7,8 @@ package main
 // different rotation), and compares the verdicts.  Race reports are read from the detector's log.
 
 import (
+	"crypto/sha1"
+	"reflect"
 	"context"
 	"encoding/json"
 	"fmt"
@@ -40,6 +42,26 @@ type c15World struct {
 	doc     *openapi3.T
 	routers []routers.Router
 	pat     *openapi3.Schema // a shared pattern schema, first compiled with the default engine (as T.Validate does)
+	fresh   reflect.Type     // a struct type no generator has seen yet (cold type-information cache)
+}
+
+var c15TypeCounter int
+
+// a struct type with many fields whose names are new in this process
+func c15FreshType() reflect.Type {
+	c15TypeCounter++
+	var fs []reflect.StructField
+	for k := 0; k < 120; k++ {
+		t := reflect.TypeOf(0)
+		if k%3 == 1 {
+			t = reflect.TypeOf("")
+		} else if k%3 == 2 {
+			t = reflect.TypeOf([]float64{})
+		}
+		n := fmt.Sprintf("F%dx%d", c15TypeCounter, k)
+		fs = append(fs, reflect.StructField{Name: n, Type: t, Tag: reflect.StructTag(fmt.Sprintf(`json:"f%d"`, k))})
+	}
+	return reflect.StructOf(fs)
 }
 
 // a caller-supplied regex engine: case-insensitive
@@ -53,6 +75,7 @@ func c15Load(c *C10Case) *c15World {
 	}
 	w := &c15World{doc: doc, pat: &openapi3.Schema{Type: &openapi3.Types{"string"}, Pattern: "^[a-z]+$"}}
 	_ = w.pat.Validate(context.Background())
+	w.fresh = c15FreshType()
 	if r, e := gorillamux.NewRouter(doc); e == nil {
 		w.routers = append(w.routers, r)
 	}
@@ -126,6 +149,9 @@ func c15Run(c *C10Case, w *c15World, rot int) []string {
 	// schema-level operations over the shared components: first use of a pattern, uniqueItems, defaults
 	if comps := w.doc.Components; comps != nil {
 		for _, name := range sortedKeys(comps.Schemas) {
+			if name == "RAny" || name == "RAll" || name == "ROne" {
+				continue // VisitJSON recurses without bound on these (recorded under C10)
+			}
 			s := comps.Schemas[name].Value
 			for vi, val := range []any{"abc", 1.0, []any{1.0, 1.0, "a"}, map[string]any{"v": []any{1.0}, "next": map[string]any{}}} {
 				err := func() (err error) {
@@ -161,6 +187,13 @@ func c15Run(c *C10Case, w *c15World, rot int) []string {
 			}
 			out = append(out, fmt.Sprintf("engine %d %s %s %s", ei, eng, val, v))
 		}
+	}
+	// schema generation for a type that no generator has seen before this document
+	if fr, err := openapi3gen.NewSchemaRefForValue(reflect.New(w.fresh).Interface(), openapi3.Schemas{}); err != nil || fr == nil {
+		out = append(out, "gen-fresh err")
+	} else {
+		b, _ := json.Marshal(fr)
+		out = append(out, "gen-fresh "+fmt.Sprint(len(fr.Value.Properties))+" "+fmt.Sprintf("%x", sha1.Sum(b)))
 	}
 	// schema generation for one Go type
 	ref, err := openapi3gen.NewSchemaRefForValue(&c15Gen{}, openapi3.Schemas{})
@@ -294,8 +327,12 @@ func init() {
 		} else {
 			cases = loadCorpus[C10Case]("C15")
 			r := NewRng(seed)
-			for i := 0; i < n; i++ {
-				cases = append(cases, c10Random(r))
+			for len(cases) < n {
+				c := c10Random(r)
+				if c10UsesCycle(&c) {
+					continue // unbounded recursion (recorded under C10): a fatal error of the whole child
+				}
+				cases = append(cases, c)
 			}
 		}
 		meta := &Meta{Property: "C15", Seed: seed, Histogram: map[string]int{}, Shard: 1000,
